@@ -55,6 +55,7 @@ def run(pid, cmd, argv, trusted, known_classifiers):
     fails, n, agree, inconcl, twins, unspec, panics = [], 0, 0, 0, 0, 0, []
     twin_ok = {}
     class_diff = 0
+    listing_n, listing_skipped, listing_bad = 0, 0, []
     if cases:
         mout = c.model(cases, extract_pid="RefSem")
         if mout:
@@ -66,6 +67,14 @@ def run(pid, cmd, argv, trusted, known_classifiers):
                         raise RuntimeError("case/model id mismatch %r %r" % (a[0], b[0]))
                     cid, inp, impl, src = int(a[0]), a[1], a[2], unesc(a[3]) if len(a) > 3 else ""
                     model = b[1]
+                    if inp.startswith("bytecode=1"):
+                        # tie of the Gallina generator model (coq/Model/GenF0.v) to the real generator
+                        listing_n += 1
+                        if model == "NOTF0":
+                            listing_skipped += 1
+                        elif impl != model:
+                            listing_bad.append({"source": src, "real_generator": impl, "model_generator": model, "prefix": inp})
+                        continue
                     if inp.startswith("twin="):
                         twins += 1
                         kind, _, orig = inp.split(" ", 1)[0][5:].partition(":")
@@ -96,12 +105,22 @@ def run(pid, cmd, argv, trusted, known_classifiers):
     c.coverage["twin_cases"] = twins
     c.coverage["traces_validated_against_impl"] = agree
     c.coverage["disagreements"] = len(fails)
+    if listing_n:
+        c.coverage["bytecode_listings_compared"] = listing_n - listing_skipped
+        c.coverage["bytecode_listings_differ"] = len(listing_bad)
     c.coverage["error_class_differs_same_trace"] = class_diff
     for p in panics[:3]:
         p["kind"] = "the interpreter panicked on a program of the core language"
         p["replay"] = "bin/check %s --replay <this file> (evaluates \"source\" in a fresh interpreter)" % pid
         c.violation(p)
     violations = 0
+    if c.replay_in and fails:
+        # replay of one stored program: report what it does now, no minimisation
+        for _, cid, src, impl, model, inp in fails:
+            violations += 1
+            c.violation({"kind": "replayed program: the real interpreter and the reference evaluator disagree",
+                         "source": src, "prefix": inp, "implementation": impl, "model": model, "specification": model})
+        fails = []
     if fails and rc == 0:
         fails.sort()
         # a failing case whose twin (same program, rendered so that a self tail call / a shared append
@@ -188,6 +207,10 @@ def run(pid, cmd, argv, trusted, known_classifiers):
                     c.violation({"kind": "disagreement between the real interpreter and the reference evaluator (not minimised)",
                                  "id": f[1], "source": f[2], "prefix": f[5], "implementation": f[3], "model": f[4], "specification": f[4],
                                  "count_not_minimised": len(fails) - nchosen})
+    if listing_bad:
+        c.violation({"kind": "the instruction listing of the real code generator differs from the Gallina generator model coq/Model/GenF0.v:gen "
+                             "(the tie of theorem vm_refines_ref_F0 to generator.go is broken; this alone is not a failing input of the property)",
+                     "count": len(listing_bad), "cases": listing_bad[:5]}, no_input=True, tag="gen")
     if not violations and not panics:
         if c.proof_break:
             c.violation({"kind": "proof obligation / extraction no longer checks", "detail": c.proof_break}, no_input=True, tag="proof")
